@@ -49,14 +49,14 @@ def seed_simple():
     objs[27] = Stream({}, b"800 0 0 0 800 800 d1 0 0 800 800 re f")
     res = {b"Font": {b"F1": R(20), b"F2": R(24), b"F3": R(25)}, b"ProcSet": [N("PDF"), N("Text")]}
     c1 = b"BT /F1 12 Tf 1 0 0 1 50 700 Tm (ABCDEF) Tj 0 -14 Td [(AB) -250 (C) 100 (D)] TJ /F2 10 Tf 14 TL T* (Hello) ' ET"
-    c2 = b"q 0.5 0 0 0.5 10 10 cm BT /F3 20 Tf 100 100 Td (AA) Tj ET Q BT /F1 9 Tf 2 Tc 3 Tw 90 Tz 1 Ts 50 50 Td 1 2 (A B) \" ET"
+    c2 = b"q 0.5 0 0 0.5 10 10 cm BT /F3 20 Tf 100 100 Td (AA) Tj ET Q BT /F1 9 Tf 2 Tc 3 Tw 90 Tz 1 Ts 50 50 Td 1 2 (A B) \" ET BT /F1 8 Tf 20 400 Td 0 -10 TD (L1) Tj T* (L2) Tj 1 Tr (L3) ' 2 0 (L4) \" ET"
     _pages(objs, [c1, c2], res, extra_page={b"Rotate": 90})
     return {"name": "simple", "objs": objs, "form": "table"}
 
 
 def seed_cid():
     objs = {}
-    ttf = C.build_ttf([(3, 1, 4, {0x41: 36, 0x42: 37, 0x3042: 100})])
+    ttf = C.build_ttf([(3, 1, 4, {0x41: 36, 0x42: 37, 0x3042: 100}), (0, 3, 2, {0x43: 38, 0x3044: 101, 0x3045: 102})])
     tu, _ = F.tounicode_cmap({0x0041: "A", 0x0042: "B", 0x0100: "xyz"}, codelen=2)
     objs[20] = C.type0(N("Identity-H"), R(21), R(24), basefont="CidA")
     objs[21] = C.descendant("CIDFontType2", "Adobe-Identity", R(22), basefont="CidA", W=[65, [500, 600], 70, 80, 700], DW=900,
@@ -69,9 +69,13 @@ def seed_cid():
     objs[27] = C.font_descriptor("CidB")
     objs[28] = C.type0(N("Identity-V"), R(29), basefont="CidC")
     objs[29] = C.descendant("CIDFontType0", "Adobe-Japan1", R(27), basefont="CidC", DW2=[880, -1000], W2=[1, [-900, 500, 880], 5, 9, -800, 400, 800])
-    res = {b"Font": {b"F1": R(20), b"F2": R(25), b"F3": R(28)}}
+    # no ToUnicode: the text comes from the cmap tables of the embedded TrueType program (format 4 and format 2)
+    objs[30] = C.type0(N("Identity-H"), R(31), basefont="CidD")
+    objs[31] = C.descendant("CIDFontType2", "Adobe-Identity", R(22), basefont="CidD", DW=750, cidtogid=N("Identity"))
+    res = {b"Font": {b"F1": R(20), b"F2": R(25), b"F3": R(28), b"F4": R(30)}}
     jp = "あい漢A".encode("cp932")
-    c1 = b"BT /F1 12 Tf 50 700 Td <004100420100> Tj /F2 10 Tf 0 -20 Td <" + jp.hex().encode() + b"> Tj /F3 10 Tf 300 700 Td <00010002000600ff> Tj ET"
+    c1 = (b"BT /F1 12 Tf 50 700 Td <004100420100> Tj /F2 10 Tf 0 -20 Td <" + jp.hex().encode() +
+          b"> Tj /F3 10 Tf 300 700 Td <00010002000600ff> Tj /F4 9 Tf 50 600 Td <0024002600640065> Tj ET")
     _pages(objs, [c1], res)
     return {"name": "cid", "objs": objs, "form": "table"}
 
@@ -168,17 +172,24 @@ def seed_objstm():
 ALL = [seed_simple, seed_cid, seed_graphics, seed_filters, seed_structure, seed_objstm]
 
 
-def write(seed, objs=None):
-    """Serialise a (possibly damaged) object graph of a seed."""
+def write(seed, objs=None, trailer_extra=None):
+    """Serialise a (possibly damaged) object graph of a seed.  trailer_extra: entries written into the trailer (or the
+    cross-reference stream dictionary) over the regular ones; the value "SELFPOS" stands for the file's own startxref
+    offset."""
     objs = seed["objs"] if objs is None else objs
+    if trailer_extra and any(v == "SELFPOS" for v in trailer_extra.values()):
+        import re
+        probe = write(seed, objs, {k: (0 if v == "SELFPOS" else v) for k, v in trailer_extra.items()})
+        pos = int(re.findall(rb"startxref\s+(\d+)", probe)[-1])
+        trailer_extra = {k: (pos if v == "SELFPOS" else v) for k, v in trailer_extra.items()}
     info = None
     if seed.get("info") is not None:
         objs = dict(objs)
         objs[99] = seed["info"]
         info = 99
     if seed["form"] == "table":
-        return W.build_pdf(objs, info=info)
-    rev = {"defs": objs, "root": 1, "info": info, "form": "stream",
+        return W.build_pdf(objs, info=info, trailer_extra=trailer_extra)
+    rev = {"defs": objs, "root": 1, "info": info, "form": "stream", "trailer_extra": trailer_extra,
            "pack": [n for n in objs if not W.is_stream(objs[n])], "nstm": 2, "flate": True, "png_up": True, "objstm_flate": True,
            "w": [1, 3, 2], "index_default": True}
     data, _ = X.write_history([rev])
